@@ -114,10 +114,10 @@ def run(ctx):
                                                      "make_tail": info.get("make_tail", "")[-1500:]}, found_input=False)
     applies = ["C09_wide_ryw (single-value / multi-type map, sequential placement of background steps)"]
     if spec_sets:
-        applies.append("set map: the tree passes the F2/F3 witnesses: the repaired-variant theorem applies")
+        applies.append("C09_set_ryw (key->set map, repaired variant, any threshold): the tree passes the F2/F3 witnesses and corresponds to the repaired model")
     else:
         applies.append("set map: the tree shows " + ", ".join(k for k, p in (("F2", f2["present"]), ("F3", f3["present"])) if p)
-                       + ": C09_set_ryw_refuted_* describe it; read-your-writes holds only for the repaired variant")
+                       + ": C09_set_ryw_refuted_* describe it; C09_set_ryw is proved for the repaired variant (patches/fix_c09_spilled_iter.diff, fix_c09_overlay_lww.diff) and does not apply to this tree")
     cov = vlib.proof_coverage(info, "./check C09 (coq_makefile+make closure of Properties/C09.vo; coqc Properties/C09.v; coqc cases)", TB)
     cov.update({
         "traces_validated_against_impl": total,
